@@ -9,6 +9,18 @@
 //!     parameter, local, struct member, method, template parameter) × every written form of both references (`::x`, `x`,
 //!     `N::x`, `::N::x`) × all assignments of {x, x_0, …} to the two names; the renamed source is certified to be a renaming
 //!     by a reference scoping model on the source trees, then the pair oracle applies without consulting the front end
+//!     also: the entity is a member of a namespace, is referred to through a qualified name from outside it, and another
+//!     entity of the same leaf name is declared at / around the use (root, sibling namespace, enclosing namespace, parameter
+//!     and local of the using function); and further ways of using the entity: folded constants (case labels, array sizes)
+//!  f  every template × every identifier of its own emitted text that is not derived from a user name: the names the
+//!     exporter itself introduced into that program (implicit parameters, argument buffers, stage structs, helpers)
+//!  b, d and f additionally run over (i) every position next to a name the exporters introduce themselves: feature that makes
+//!  them do so (wave lane count / index → implicit parameters, mesh / task / vertex / pixel stages → mesh object, payload,
+//!  grid properties, stage structs) × role and place of the user name (local, parameter, of the function / of a caller / of
+//!  the entry point / of a method, global, member, enumerator, function, struct, …) and (ii) every constant-folded position
+//!  (case label, array size, template value argument, enumerator initialiser, attribute argument; default argument and
+//!  constant initialiser next to them) × every way of writing a constant through a user name (cast of a value that matches
+//!  an enumerator / matches none, enumerator through the enum / through the namespace, constant variable) × placement
 //!  b and d additionally run over every kind of user type (struct, enum, typedef) × every position in which a type is
 //!  written (local, parameter, return, template argument explicit / deduced / repeated / from a function / mentioned in the
 //!  instantiation, buffer element, member, global, cast, sizeof, array, method signature, typedef source, for-init) ×
@@ -17,12 +29,15 @@
 //! One oracle ("pair oracle") serves all spaces: a baseline program B (distinctive unique names) and a renamed program R
 //! are compiled for one target; the emitted texts must be equal token by token outside tokens derived from the renamed
 //! names; the syntax trees handed to the formatter (hook H1) are resolved with ordinary lexical scoping and every
-//! identifier use must resolve to the same declaration as in the baseline; declarations of one scope must have
+//! identifier use must resolve to the same declaration as in the baseline and a use written with a user name must resolve
+//! to some declaration at all; declarations of one scope must have
 //! pairwise distinct names; emitted names of the renamed entity must not be in OUR reserved list of the target; the
 //! HLSL text must still be accepted by the rssl front end.
 //!
 //! Signatures: rename|alpha|<role>|<target>, reserved|<hlsl|msl>|<role>|<category>, clash|<kind+kind>|<target>,
-//! not-verbatim|<role>|<target>, use-rebound|<role>|<target>, reject|<role>|<target>, rename|rejected|<role>|<target>, panic|…
+//! not-verbatim|<role>|<target>, use-rebound|<role>|<target>, reject|<role>|<target>, rename|rejected|<role>|<target>, panic|…,
+//! use-unbound|<kind of the entity>|<target> (an emitted use of a user entity that no emitted declaration answers),
+//! use-rebound|qualified-reference-…|<target>|by-<kind of the capturing declaration>
 //! (space e roles: shadowed-by-namespace-member, shadowed-by-local-or-parameter, shadowed-by-struct-member,
 //! shadowed-by-template-parameter)
 
@@ -351,6 +366,8 @@ pub struct Scope {
 pub struct UseRec {
     pub path: String,
     pub res: Vec<usize>,
+    /// what the first segment of the path resolves to
+    pub first: Vec<usize>,
 }
 
 pub struct An {
@@ -414,6 +431,7 @@ impl An {
         } else {
             self.lookup(scope, names[0])
         };
+        let first = cur.clone();
         for n in names.iter().skip(1) {
             let mut next = Vec::new();
             for d in &cur {
@@ -425,7 +443,7 @@ impl An {
             next.dedup();
             cur = next;
         }
-        self.uses.push(UseRec { path, res: cur });
+        self.uses.push(UseRec { path, res: cur, first });
     }
 
     fn decl_name(d: &ast::Declarator) -> Option<&ast::ScopedIdentifier> {
@@ -602,6 +620,12 @@ impl An {
 
     /// parameters, template parameters and the outermost block of the body share one scope
     fn function_inner(&mut self, outer: usize, f: &ast::FunctionDefinition) {
+        // attribute arguments ([numthreads(N, 1, 1)]) are written before the function and see the enclosing scope
+        for a in &f.attributes {
+            for x in &a.arguments {
+                self.expr(outer, &x.node);
+            }
+        }
         let fs = self.new_scope(outer, &format!("function {}", f.name.node));
         self.template_params(fs, &f.template_params);
         self.ty(fs, &f.returntype.return_type);
@@ -1001,6 +1025,11 @@ pub enum Verdict {
     Violated,
 }
 
+/// identifiers that rssl's parser takes for a type modifier when they stand where a type starts (parser/src/parser/types.rs)
+const RSSL_TYPE_MODIFIER_WORDS: &[&str] = &[
+    "precise", "nointerpolation", "linear", "centroid", "noperspective", "sample", "point", "line", "triangle", "lineadj", "triangleadj", "vertices", "primitives", "indices", "payload",
+];
+
 /// roles whose names never pass through the name generator (signature naming only; no influence on verdicts)
 const UNMANAGED_ROLES: &[&str] = &["struct-member", "enum-value", "cbuffer", "cbuffer-member", "template-parameter", "namespace"];
 
@@ -1045,6 +1074,8 @@ fn source_shape(src: &str, map: &[(String, String)]) -> Option<String> {
             for i in 0..m.enum_registry.get_enum_count() {
                 let _ = writeln!(s, "{:?}", m.enum_registry.get_enum_definition(rssl::ir::EnumId(i)));
             }
+            // the values of the enumerators: `(w)2` in an initialiser is a cast to a built-in type when w is one
+            let _ = writeln!(s, "{:?}", m.enum_registry);
             let mut s = sort_variable_lists(&crate::ast_norm::strip(&s));
             for (k, v) in map {
                 s = s.replace(&format!("\"{}\"", k), &format!("\"{}\"", v));
@@ -1259,12 +1290,44 @@ pub fn check_pair(p: &Pair, base_out: &Out, base_an: &An, base_accepted_by_front
                     pending.push((sig, format!("{} {:?}: {} and {} share a name in one scope", p.role, p.map, ar.describe(x), ar.describe(y)), true));
                 }
             }
+            // 3b. a use that is written with a name derived from a renamed user name (the baseline's names are distinctive) must
+            //     refer to SOME declaration of the emitted module: a path that lost its qualification refers to nothing
+            //     already in the baseline output; whether the renamed output leaves it dangling too or lets a declaration of the
+            //     same name capture it is the same finding
+            //     (a use that is bound in the baseline output and not in the renamed output is a rebinding: reported below)
+            let dangling = |ub: &UseRec| {
+                let first = ub.path.trim_start_matches("::").split("::").next().unwrap_or("");
+                ub.res.is_empty() && !first.is_empty() && find_key(first, p.map).is_some()
+            };
+            for (ub, ur) in ab.uses.iter().zip(ar.uses.iter()) {
+                if dangling(ub) {
+                    // class: the kind(s) of the emitted declarations that carry the leaf name of the dangling path
+                    // (looked up in the baseline output, whose names are distinctive)
+                    let leaf = ub.path.rsplit("::").next().unwrap_or("");
+                    let kinds: BTreeSet<&str> = ab.decls.iter().filter(|d| d.name == leaf).map(|d| d.kind.name()).collect();
+                    let kind = if kinds.is_empty() { "undeclared".to_string() } else { kinds.into_iter().collect::<Vec<_>>().join("+") };
+                    pending.push((
+                        format!("use-unbound|{}|{}", kind, tname),
+                        format!("{} {:?}: the emitted use `{}` (baseline `{}`) names a user entity but resolves to no declaration of the emitted module", p.role, p.map, ur.path, ub.path),
+                        true,
+                    ));
+                    break;
+                }
+            }
             if !reserved_hit && seen_clash.is_empty() {
                 for (ub, ur) in ab.uses.iter().zip(ar.uses.iter()) {
-                    if ub.res != ur.res && ab.canonical(&ub.res) != ar.canonical(&ur.res) {
+                    if ub.res != ur.res && ab.canonical(&ub.res) != ar.canonical(&ur.res) && !dangling(ub) {
                         let d = |a: &An, r: &Vec<usize>| if r.is_empty() { "nothing declared in the module (built-in)".to_string() } else { r.iter().map(|x| a.describe(*x)).collect::<Vec<_>>().join(" / ") };
+                        // qualified references (space e): the class also names the kind of declaration that captured the use, so
+                        // that a path printed without its qualification and an implicit parameter named like a root entity differ
+                        let sig = if p.role.starts_with("qualified-reference") {
+                            let by: BTreeSet<&str> = ur.first.iter().map(|x| ar.decls[*x].kind.name()).collect();
+                            format!("use-rebound|{}|{}|by-{}", p.role, tname, if by.is_empty() { "nothing".to_string() } else { by.into_iter().collect::<Vec<_>>().join("+") })
+                        } else {
+                            format!("use-rebound|{}|{}", p.role, tname)
+                        };
                         pending.push((
-                            format!("use-rebound|{}|{}", p.role, tname),
+                            sig,
                             format!("renaming {:?}: use `{}` resolves to {}; in the baseline `{}` resolves to {}", p.map, ur.path, d(&ar, &ur.res), ub.path, d(ab, &ub.res)),
                             true,
                         ));
@@ -1288,7 +1351,14 @@ pub fn check_pair(p: &Pair, base_out: &Out, base_an: &An, base_accepted_by_front
     }
 
     // 5. HLSL text is still accepted by the front end (only when nothing else explains a rejection already)
-    if p.cfg.is_hlsl() && base_accepted_by_front_end && pending.is_empty() {
+    //    Not for the words rssl's own grammar reads as a modifier in front of a type: a namespace may carry such a name, but
+    //    `indices::T` written where a type starts is read back as modifier + `::T`; that is about rssl's parser, not about
+    //    the emitted names (the words that are reserved in HLSL get a suffix anyway)
+    let modifier_word = chosen.iter().any(|c| RSSL_TYPE_MODIFIER_WORDS.contains(&c.as_str()));
+    if modifier_word {
+        acc.count("reaccept_check_skipped_for_rssl_type_modifier_word");
+    }
+    if p.cfg.is_hlsl() && base_accepted_by_front_end && pending.is_empty() && !modifier_word {
         if let Err(e) = hlsl_accepts(&ren_out.text) {
             pending.push((
                 format!("reject|{}|{}", p.role, tname),
@@ -1342,6 +1412,9 @@ pub struct Tpl {
     pub extra: bool,
     /// thorough tier only
     pub deep: bool,
+    /// a template of the generator-name / constant-position dimensions: the quick tier tries the plain names (space d) and
+    /// every identifier of its own emitted text (space f) only, the thorough tier every word outside the large families too
+    pub vocab: bool,
 }
 
 /// baseline name of the single renamed identifier in spaces b and d
@@ -1349,7 +1422,7 @@ const BASE: &str = "zq";
 
 fn role_templates() -> Vec<Tpl> {
     let mut v = Vec::new();
-    let mut t = |role: &'static str, variant: &'static str, src: String| v.push(Tpl { role, variant: variant.to_string(), src, extra: false, deep: false });
+    let mut t = |role: &'static str, variant: &'static str, src: String| v.push(Tpl { role, variant: variant.to_string(), src, extra: false, deep: false, vocab: false });
     // global variable
     t("global", "byte-buffer", prog("ByteAddressBuffer @;", "int r = (int)@.Load(0);"));
     t("global", "texture", prog("Texture2D<float4> @;", "int r = (int)@.Load(int3(0, 0, 0)).x;"));
@@ -1487,7 +1560,29 @@ const TY_POSITIONS: &[(&str, &str, &str)] = &[
     ("method-signature", "struct So { int hn; # hf(# ha) { return ha; } };", "# hs; I(hs) So ho; ho.hn = 1; int r = V(ho.hf(hs));"),
     ("typedef-source", "typedef # Hd;", "Hd hs; I(hs) int r = V(hs);"),
     ("for-init", "", "int r = 0; for (# hs; r < 1; ++r) { I(hs) r += V(hs); }"),
+    // positions whose expression is folded to a constant by the front end and written out again by the exporter from the
+    // VALUE (case labels, array sizes, template value arguments, enumerator initialisers) or kept as an expression next to
+    // them (default arguments, initialisers of constants): every way of writing a constant of the type
+    // (added after a seeded change that printed `(N::E)3` in a case label as `(E)3` was missed: no program had a case label,
+    // an array size or a template value argument that mentions a user-declared name)
+    ("const-case-label-cast-unmatched", "", "# hs; I(hs) int r = 0; switch (hs) { case (#)7: r = 1; break; default: r = 2; break; }"),
+    ("const-case-label-cast-matched", "", "# hs; I(hs) int r = 0; switch (hs) { case (#)1: r = 1; break; default: r = 2; break; }"),
+    ("const-case-label-enumerator", "", "# hs; I(hs) int r = 0; switch (hs) { case #::Ea: r = 1; break; case #::Eb: r = 3; break; default: r = 2; break; }"),
+    ("const-case-label-all-forms", "", "# hs; I(hs) int r = 0; switch (hs) { case #::Ea: r = 1; break; case (#)1: r = 3; break; case (#)7: r = 4; break; case (#)9: r = 5; break; default: r = 2; break; }"),
+    ("const-case-label-static-const-unmatched", "static const # hk = (#)7;", "# hs; I(hs) int r = 0; switch (hs) { case hk: r = 1; break; default: r = 2; break; }"),
+    ("const-case-label-static-const-matched", "static const # hk = (#)1;", "# hs; I(hs) int r = 0; switch (hs) { case hk: r = 1; break; default: r = 2; break; }"),
+    ("const-case-label-in-function", "int hf(# ha) { switch (ha) { case (#)7: return 1; case (#)1: return 3; default: return 2; } }", "# hs; I(hs) int r = hf(hs);"),
+    ("const-array-size-cast", "", "int ha[(int)(#)2]; ha[1] = 1; int r = ha[1];"),
+    ("const-template-value-argument-cast", "template<int Vh> int hf(int ha) { return ha + Vh; }", "int r = hf<(int)(#)2>(1);"),
+    ("const-enumerator-initialiser-cast", "enum Eq { Qa = (int)(#)2, Qb };", "int r = (int)Qb;"),
+    ("const-default-argument-cast", "int hf(int ha, # hb = (#)7) { return ha + V(hb); }", "int r = hf(1);"),
+    ("const-static-const-initialiser-cast", "static const # hk = (#)7;", "# hs = hk; int r = V(hs);"),
 ];
+
+/// positions of TY_POSITIONS that the quick tier also tries with the type declared in a namespace
+fn quick_in_namespace(pos: &str) -> bool {
+    pos.starts_with("template-") || pos.starts_with("const-")
+}
 
 fn expand_calls(text: &str, k: &TyKind) -> String {
     // I(x) / V(x): x never contains parentheses other than balanced ones
@@ -1537,16 +1632,137 @@ fn type_position_templates() -> Vec<Tpl> {
                         if decls.is_empty() || decls.contains("Buffer<") || decls.starts_with("cbuffer ") || decls.starts_with("static") || decls.starts_with("groupshared") {
                             continue;
                         }
-                        let body = fill(body).replace("hf(", "Nh::hf(").replace("hf<", "Nh::hf<").replace("hg(", "Nh::hg(").replace("So ", "Nh::So ").replace("Sw<", "Nh::Sw<").replace("Hd ", "Nh::Hd ").replace("@", "Nh::@").replace(".Nh::", ".");
+                        let body = fill(body).replace("hf(", "Nh::hf(").replace("hf<", "Nh::hf<").replace("hg(", "Nh::hg(").replace("So ", "Nh::So ").replace("Sw<", "Nh::Sw<").replace("Hd ", "Nh::Hd ").replace("(int)Qb", "(int)Nh::Qb").replace("@", "Nh::@").replace(".Nh::", ".");
                         prog(&format!("namespace Nh {{ {}\n{} }}", k.decl, fill(decls)), &body)
                     }
                 };
                 // the quick tier keeps the namespace placement for the template-argument positions only
-                let deep = k.deep || deep_placement || (placement == "namespace" && !pos.starts_with("template-"));
-                v.push(Tpl { role: k.role, variant: format!("{}/{}/{}", k.kind, pos, placement), src, extra: true, deep });
+                let deep = k.deep || deep_placement || (placement == "namespace" && !quick_in_namespace(pos));
+                v.push(Tpl { role: k.role, variant: format!("{}/{}/{}", k.kind, pos, placement), src, extra: true, deep, vocab: false });
             }
         }
     }
+    v
+}
+
+// ---------------------------------------------------------------------------------------------------------------
+// names the exporters introduce themselves × every place a user name can sit next to them
+// (added after a seeded change that dropped `threads_per_simdgroup` from the Metal exporter's table of protected names was
+// missed: no program made the exporter add a parameter, local, member or type of its own to a scope that also holds a user
+// name, other than the implicit parameters for globals)
+
+/// what makes an exporter put names of its own into the scope of a function: (label, int-valued expression)
+const IMPLICIT_FEATURES: &[(&str, &str, bool)] = &[
+    ("lane-count", "(int)WaveGetLaneCount()", false),
+    ("lane-index", "(int)WaveGetLaneIndex()", false),
+    ("lane-count-and-index", "(int)(WaveGetLaneCount() + WaveGetLaneIndex())", true),
+    ("lane-count-and-static-global", "(int)WaveGetLaneCount() + hsg", true),
+];
+
+/// (role, position, declarations, body of the entry point); `X` = the feature expression, `@` = the renamed name
+const IMPLICIT_POSITIONS: &[(&str, &str, &str, &str)] = &[
+    ("local", "direct", "int hf(int ha) { int @ = ha * 2; return @ + X; }", "int r = hf(1);"),
+    ("local", "for-loop", "int hf(int ha) { int hr = 0; for (int @ = 0; @ < ha; ++@) { hr += @ + X; } return hr; }", "int r = hf(2);"),
+    ("local", "nested-block", "int hf(int ha) { int hr = X; { int @ = ha; hr += @; } return hr; }", "int r = hf(2);"),
+    ("local", "of-caller", "int hg(int ha) { return ha + X; }\nint hf(int hb) { int @ = hg(hb); return @; }", "int r = hf(1);"),
+    ("local", "of-entry-point", "", "int @ = X; int r = @;"),
+    ("local", "of-entry-point-calling", "int hg(int ha) { return ha + X; }", "int @ = hg(1); int r = @;"),
+    ("local", "of-method", "struct Sh { int hm; int hf(int ha) { int @ = hm + ha; return @ + X; } };", "Sh hs; hs.hm = 1; int r = hs.hf(2);"),
+    ("parameter", "direct", "int hf(int @) { return @ + X; }", "int r = hf(1);"),
+    ("parameter", "of-caller", "int hg(int ha) { return ha + X; }\nint hf(int @) { return hg(@); }", "int r = hf(1);"),
+    ("parameter", "of-caller-of-caller", "int hh(int ha) { return ha + X; }\nint hg(int hb) { return hh(hb); }\nint hf(int @) { return hg(@); }", "int r = hf(1);"),
+    ("parameter", "of-method", "struct Sh { int hm; int hf(int @) { return hm + @ + X; } };", "Sh hs; hs.hm = 1; int r = hs.hf(2);"),
+    ("parameter", "out", "void hf(out int @) { @ = X; }", "int r = 0; hf(r);"),
+    ("parameter", "of-template-function", "template<typename Th> Th hf(Th @) { return @ + (Th)X; }", "int r = hf<int>(1);"),
+    ("static-global", "used-next-to", "static int @ = 3;\nint hf(int ha) { return ha + @ + X; }", "int r = hf(1);"),
+    ("static-global", "groupshared-used-next-to", "groupshared int @[4];\nint hf(int ha) { @[0] = ha; return @[0] + X; }", "int r = hf(1);"),
+    ("static-global", "in-namespace-used-next-to", "namespace Nh { static int @ = 3; }\nint hf(int ha) { return ha + Nh::@ + X; }", "int r = hf(1);"),
+    ("global", "used-next-to", "ByteAddressBuffer @;\nint hf(int ha) { return ha + (int)@.Load(0) + X; }", "int r = hf(1);"),
+    ("cbuffer-member", "used-next-to", "cbuffer Ch { int @; }\nint hf(int ha) { return ha + @ + X; }", "int r = hf(1);"),
+    ("enum-value", "used-next-to", "enum Eh { Ea, @ };\nint hf(int ha) { return ha + (int)@ + X; }", "int r = hf(1);"),
+    ("function", "direct", "int @(int ha) { return ha + X; }", "int r = @(1);"),
+    ("function", "called-next-to", "int @(int ha) { return ha + 1; }\nint hf(int hb) { return @(hb) + X; }", "int r = hf(1);"),
+    ("struct", "local-type-next-to", "struct @ { int hm; };\nint hf(int ha) { @ hs; hs.hm = ha; return hs.hm + X; }", "int r = hf(1);"),
+    ("struct-member", "used-next-to", "struct Sh { int @; };\nint hf(int ha) { Sh hs; hs.@ = ha; return hs.@ + X; }", "int r = hf(1);"),
+    ("method", "direct", "struct Sh { int hm; int @(int ha) { return hm + ha + X; } };", "Sh hs; hs.hm = 1; int r = hs.@(2);"),
+    ("template-parameter", "type", "template<typename @> @ hf(@ ha) { return ha + (@)X; }", "int r = hf<int>(1);"),
+];
+
+/// task + mesh pipeline: `@` sits in one of the marked places
+fn mesh_program(names: &[(&str, &str)], decls: &str, task_body: &str, mesh_body: &str) -> String {
+    let mut s = format!(
+        "struct %payload {{ uint %pm; }};\nstruct %vertex {{ float4 %vm : SV_Position; }};\ngroupshared %payload %lds;\n{decls}\n[numthreads(64, 1, 1)]\nvoid ht(uint3 %ttid : SV_DispatchThreadID) {{\n    %lds.%pm = %ttid.x;\n    {task_body}\n}}\n[numthreads(64, 1, 1)]\n[outputtopology(\"triangle\")]\nvoid hm(uint3 %mtid : SV_DispatchThreadID, in payload %payload %pin, out vertices %vertex %ov[64], out indices uint3 %oi[64]) {{\n    {mesh_body}\n    %vertex hx;\n    hx.%vm = float4(%pin.%pm, 0, 0, 1);\n    %ov[%mtid.x] = hx;\n    %oi[%mtid.x] = uint3(0, 1, 2);\n}}\nPipeline Pp {{ TaskShader = ht; MeshShader = hm; }}\n"
+    );
+    let defaults = [("%payload", "Hp"), ("%pm", "hs"), ("%vertex", "Hv"), ("%vm", "hq"), ("%lds", "hl"), ("%ttid", "hd"), ("%mtid", "he"), ("%pin", "hi"), ("%ov", "hov"), ("%oi", "hoi")];
+    for (k, v) in names.iter().chain(defaults.iter()) {
+        s = s.replace(k, v);
+    }
+    s
+}
+
+fn generator_name_templates() -> Vec<Tpl> {
+    let mut v = Vec::new();
+    for (feature, x, deep) in IMPLICIT_FEATURES {
+        for (role, pos, decls, body) in IMPLICIT_POSITIONS {
+            let extra_decl = if x.contains("hsg") { "static int hsg = 5;\n" } else { "" };
+            let src = prog(&format!("{}{}", extra_decl, decls.replace('X', x)), &body.replace('X', x));
+            v.push(Tpl { role, variant: format!("implicit/{}/{}", feature, pos), src, extra: false, deep: *deep, vocab: true });
+        }
+    }
+    // mesh and task stages: the Metal exporter passes the mesh object, the payload and the grid properties as parameters of
+    // its own and replaces the user's output parameters
+    let dispatch = "DispatchMesh(4u, 1u, 1u, hl);";
+    let counts = "SetMeshOutputCounts(64, 64);";
+    let mut m = |role: &'static str, pos: &str, src: String| v.push(Tpl { role, variant: format!("implicit/mesh/{}", pos), src, extra: false, deep: false, vocab: true });
+    m("local", "of-task-entry", mesh_program(&[], "", &format!("uint @ = 4u; DispatchMesh(@, 1u, 1u, hl);"), counts));
+    m("local", "of-mesh-entry", mesh_program(&[], "", dispatch, "uint @ = 64; SetMeshOutputCounts(@, 64);"));
+    m("local", "of-function-dispatching", mesh_program(&[], "void hf(uint ha) { uint @ = ha; DispatchMesh(@, 1u, 1u, hl); }", "hf(4u);", counts));
+    m("local", "of-function-setting-counts", mesh_program(&[], "void hf(uint ha) { uint @ = ha; SetMeshOutputCounts(@, 64); }", dispatch, "hf(64);"));
+    m("parameter", "of-function-dispatching", mesh_program(&[], "void hf(uint @) { DispatchMesh(@, 1u, 1u, hl); }", "hf(4u);", counts));
+    m("parameter", "of-function-setting-counts", mesh_program(&[], "void hf(uint @) { SetMeshOutputCounts(@, 64); }", dispatch, "hf(64);"));
+    m("parameter", "task-thread-id", mesh_program(&[("%ttid", "@")], "", dispatch, counts));
+    m("parameter", "mesh-thread-id", mesh_program(&[("%mtid", "@")], "", dispatch, counts));
+    m("parameter", "mesh-payload-input", mesh_program(&[("%pin", "@")], "", dispatch, counts));
+    m("parameter", "mesh-vertices-output", mesh_program(&[("%ov", "@")], "", dispatch, counts));
+    m("parameter", "mesh-indices-output", mesh_program(&[("%oi", "@")], "", dispatch, counts));
+    m("static-global", "groupshared-payload", mesh_program(&[("%lds", "@")], "", "DispatchMesh(4u, 1u, 1u, @);", counts));
+    m("struct", "payload-type", mesh_program(&[("%payload", "@")], "", dispatch, counts));
+    m("struct", "vertex-type", mesh_program(&[("%vertex", "@")], "", dispatch, counts));
+    m("struct-member", "payload-member", mesh_program(&[("%pm", "@")], "", dispatch, counts));
+    m("struct-member", "vertex-member", mesh_program(&[("%vm", "@")], "", dispatch, counts));
+    m("function", "dispatching", mesh_program(&[], "void @(uint ha) { DispatchMesh(ha, 1u, 1u, hl); }", "@(4u);", counts));
+    m("function", "setting-counts", mesh_program(&[], "void @(uint ha) { SetMeshOutputCounts(ha, 64); }", dispatch, "@(64);"));
+    m("entry-point", "task", mesh_program(&[], "", dispatch, counts).replace("void ht(", "void @(").replace("TaskShader = ht", "TaskShader = @"));
+    m("entry-point", "mesh", mesh_program(&[], "", dispatch, counts).replace("void hm(", "void @(").replace("MeshShader = hm", "MeshShader = @"));
+    // vertex + pixel stages: the Metal exporter adds stage input / output structs and locals `in` / `out`
+    let vp = |vs_out: &str, vs_extra: &str, ps_in: &str, ps_body: &str| {
+        format!("void hv(uint hi : SV_VertexID, out float4 {vs_out} : SV_Position, out float2 hx : TEXCOORD) {{ {vs_extra}{vs_out} = float4(0, 0, 0, 1); hx = float2(0, 0); }}\nfloat4 hp(float2 {ps_in} : TEXCOORD) : SV_Target0 {{ {ps_body}return float4({ps_in}, 0, 0); }}\nPipeline Pp {{ VertexShader = hv; PixelShader = hp; }}\n")
+    };
+    let mut g = |role: &'static str, pos: &str, src: String| v.push(Tpl { role, variant: format!("implicit/graphics/{}", pos), src, extra: false, deep: false, vocab: true });
+    g("local", "of-vertex-entry", vp("ho", "float @ = 0; hx = float2(@, @); ", "hy", ""));
+    g("local", "of-pixel-entry", vp("ho", "", "hy", "float @ = 0; hy.x = @; "));
+    g("struct", "next-to-stage-structs", format!("struct @ {{ float hm; }};\n{}", vp("ho", "@ hs; hs.hm = 0; hx = float2(hs.hm, 0); ", "hy", "")));
+    g("function", "next-to-stage-entries", format!("float @(float ha) {{ return ha; }}\n{}", vp("ho", "hx = float2(@(0), 0); ", "hy", "")));
+    // constants in folded positions that are named through other kinds of entity (the enum itself: type-position templates)
+    let mut c = |role: &'static str, pos: &str, src: String| v.push(Tpl { role, variant: format!("const/{}", pos), src, extra: false, deep: false, vocab: true });
+    c("enum-value", "case-label", prog("enum Eh { Ea, @ };", "Eh he = Eh::Ea; int r = 0; switch (he) { case @: r = 1; break; case Eh::Ea: r = 2; break; default: break; }"));
+    c("enum-value", "case-label-on-int", prog("enum Eh { Ea, @ };", "int r = 0; switch ((int)tid.x) { case @: r = 1; break; default: break; }"));
+    c("enum-value", "case-label-in-namespace", prog("namespace Nh { enum Eh { Ea, @ }; }", "Nh::Eh he = Nh::Ea; int r = 0; switch (he) { case Nh::@: r = 1; break; case (Nh::Eh)7: r = 2; break; default: break; }"));
+    c("namespace", "holding-enum-in-case-labels", prog("namespace @ { enum He { Ha, Hb }; static const He hk = (He)9; }", "@::He he = @::Hb; int r = 0; switch (he) { case @::Ha: r = 1; break; case (@::He)7: r = 2; break; case @::hk: r = 3; break; default: break; }"));
+    c("namespace", "nested-holding-enum-in-case-labels", prog("namespace Nh { namespace @ { enum He { Ha, Hb }; } }", "Nh::@::He he = Nh::@::Hb; int r = 0; switch (he) { case Nh::@::Ha: r = 1; break; case (Nh::@::He)7: r = 2; break; default: break; }"));
+    c("namespace", "outer-holding-enum-in-case-labels", prog("namespace @ { namespace Ni { enum He { Ha, Hb }; } }", "@::Ni::He he = @::Ni::Hb; int r = 0; switch (he) { case @::Ni::Ha: r = 1; break; case (@::Ni::He)7: r = 2; break; default: break; }"));
+    c("namespace", "holding-enum-case-labels-inside", prog("namespace @ { enum He { Ha, Hb }; int hf(int ha) { switch ((He)ha) { case Ha: return 1; case (He)7: return 2; default: return 0; } } }", "int r = @::hf(1);"));
+    c("static-global", "static-const-case-label", prog("static const int @ = 3;", "int r = 0; switch ((int)tid.x) { case @: r = 1; break; default: break; }"));
+    c("static-global", "static-const-array-size", prog("static const int @ = 3;", "int ha[@]; ha[1] = 1; int r = ha[1];"));
+    c("static-global", "static-const-template-value-argument", prog("static const int @ = 3;\ntemplate<int Vh> int hf(int ha) { return ha + Vh; }", "int r = hf<@>(1);"));
+    c("static-global", "static-const-enum-in-namespace-case-label", prog("namespace Nh { enum He { Ha, Hb }; static const He @ = (He)7; }", "Nh::He he = Nh::Hb; int r = 0; switch (he) { case Nh::@: r = 1; break; default: break; }"));
+    c("static-global", "static-const-in-namespace-used-outside", prog("namespace Nh { static const int @ = 3; }", "int r = Nh::@;"));
+    c("static-global", "static-const-in-namespace-used-from-function", prog("namespace Nh { static const int @ = 3; }\nint hf(int ha) { return ha + Nh::@; }", "int r = hf(1);"));
+    c("static-global", "static-const-in-namespace-used-from-sibling", prog("namespace Nh { static const int @ = 3; int hf(int ha) { return ha + @; } }", "int r = Nh::hf(1);"));
+    let attr = |decl: &str, arg: &str| format!("{decl}\nRWByteAddressBuffer ob;\n[numthreads({arg}, 1, 1)]\nvoid cs(uint3 tid : SV_DispatchThreadID) {{\n    ob.Store(0, (int)tid.x);\n}}\nPipeline Pp {{ ComputeShader = cs; }}\n");
+    c("static-global", "static-const-attribute-argument", attr("static const int @ = 4;", "@"));
+    c("static-global", "static-const-in-namespace-attribute-argument", attr("namespace Nh { static const int @ = 4; }", "Nh::@"));
+    c("namespace", "holding-static-const-attribute-argument", attr("namespace @ { static const int hk = 4; }", "@::hk"));
     v
 }
 
@@ -1589,6 +1805,8 @@ fn subst3(src: &str, names: [&str; 3]) -> String {
 }
 
 /// space d: names that are certainly not reserved in either target and unique in the templates
+/// the quick tier tries this many of them in the templates of the exporter-name and constant-position dimensions
+const QUICK_PLAIN_NAMES_NEXT_TO_EXPORTER_NAMES: usize = 5;
 const PLAIN_NAMES: &[&str] = &["alpha", "Beta7", "_under", "x_0", "x_12", "a__b", "q", "mainFn", "Texture", "float5", "uint5x2", "cbuffer_", "q0", "Zq", "v_0_0", "kernel0", "deviceA", "l", "O0", "I1"];
 
 // ---------------------------------------------------------------------------------------------------------------
@@ -1621,6 +1839,24 @@ const ENTS: &[Ent] = &[
     Ent { kind: "namespace", decl: "namespace @ { int hq%(int ha) { return ha + %; } }", pre: "", val: "#::hq%(1)" },
 ];
 
+/// further ways of USING an entity (tried as the referred-to entity only, never as the nearer declaration): positions
+/// whose expression the front end folds to a constant and the exporter writes out again from the value
+const ENT_FORMS: &[Ent] = &[
+    Ent {
+        kind: "enum-in-case-labels",
+        decl: "enum @ { Ea%, Eb% };",
+        pre: "int hz% = %; int hw% = 0; switch ((#)hz%) { case (#)7: hw% = 1; break; case #::Eb%: hw% = 2; break; case (#)0: hw% = 3; break; default: break; }",
+        val: "hw%",
+    },
+    Ent { kind: "enum-value-in-case-label", decl: "enum Eh% { @, Ez% };", pre: "int hz% = %; int hw% = 0; switch (hz%) { case #: hw% = 1; break; default: break; }", val: "hw%" },
+    Ent {
+        kind: "static-const-global-folded",
+        decl: "static const int @ = 1%;",
+        pre: "int hv%[#]; hv%[0] = %; int hw% = 0; switch (hv%[0]) { case #: hw% = 1; break; default: break; }",
+        val: "hv%[0] + hw%",
+    },
+];
+
 impl Ent {
     fn decl(&self, name: &str, tag: &str) -> String {
         self.decl.replace('@', name).replace('%', tag)
@@ -1638,6 +1874,10 @@ pub struct ShadowCase {
     pub label: String,
     /// `@1` = the outer entity's name, `@2` = the name declared nearer to the use
     pub src: String,
+    /// thorough tier only (a written form of a reference that lies between two forms the quick tier tries)
+    pub deep: bool,
+    /// the quick tier tries the pairs of EQUAL names only (capture needs a shared name; suffix collisions are space c)
+    pub equal_names_in_quick: bool,
 }
 
 /// every structure × entity kind × kind of the nearer declaration × written form of both references
@@ -1649,7 +1889,7 @@ fn shadow_cases() -> Vec<ShadowCase> {
             "member-of-namespace-of-same-name" => (&["::Na::@1", "Na::@1"], &["Na::@2", "Nu::Na::@2", "::Nu::Na::@2"]),
             _ => (&["::@1", "@1"], &["@2", "Nu::@2", "::Nu::@2"]),
         };
-        for e in ENTS {
+        for e in ENTS.iter().chain(ENT_FORMS) {
             for sh in ENTS {
                 for r1 in refs1 {
                     for r2 in refs2 {
@@ -1659,7 +1899,44 @@ fn shadow_cases() -> Vec<ShadowCase> {
                             "outer-namespace-member" => (format!("{}\nnamespace Nu {{ {}\nnamespace Nv {{ {} }} }}", e.decl("@1", "1"), sh.decl("@2", "2"), hu), "Nu::Nv::hu(1)"),
                             _ => (format!("namespace Na {{ {} }}\nnamespace Nu {{ namespace Na {{ {} }}\n{} }}", e.decl("@1", "1"), sh.decl("@2", "2"), hu), "Nu::hu(1)"),
                         };
-                        v.push(ShadowCase { structure, label: format!("{} `{}` / nearer {} `{}`", e.kind, r1, sh.kind, r2), src: prog(&decls, &format!("int r = {};", call)) });
+                        v.push(ShadowCase { structure, label: format!("{} `{}` / nearer {} `{}`", e.kind, r1, sh.kind, r2), src: prog(&decls, &format!("int r = {};", call)), deep: false, equal_names_in_quick: false });
+                    }
+                }
+            }
+        }
+    }
+    // the entity is a member of a namespace and is referred to through a qualified name from outside that namespace, where
+    // (or around where) another entity of the same leaf name is declared: a path that loses its qualification is captured
+    // (added after a seeded change that printed `(N::E)3` as `(E)3` was missed: every entity that shared its name with another
+    // one was declared at the root, or in a namespace of the same name as the other's)
+    for structure in ["qualified-from-root", "qualified-from-sibling-namespace", "qualified-from-enclosing-namespace", "qualified-from-root-function-local"] {
+        let (refs1, refs2): (&[&str], &[&str]) = match structure {
+            "qualified-from-root" => (&["Na::@1", "::Na::@1"], &["@2", "::@2"]),
+            "qualified-from-sibling-namespace" => (&["Na::@1", "::Na::@1"], &["@2", "Nu::@2", "::Nu::@2"]),
+            "qualified-from-enclosing-namespace" => (&["Nb::@1", "Na::Nb::@1", "::Na::Nb::@1"], &["@2", "Na::@2", "::Na::@2"]),
+            _ => (&["Na::@1", "::Na::@1"], &[""]),
+        };
+        for e in ENTS.iter().chain(ENT_FORMS) {
+            for sh in ENTS {
+                if structure == "qualified-from-root-function-local" && sh.kind != ENTS[0].kind {
+                    continue;
+                }
+                for r1 in refs1 {
+                    for r2 in refs2 {
+                        let hu = format!("int hu(int ha) {{ {} {} return {} + {}; }}", e.pre(r1, "1"), sh.pre(r2, "2"), e.val(r1, "1"), sh.val(r2, "2"));
+                        let (decls, call, label) = match structure {
+                            "qualified-from-root" => (format!("namespace Na {{ {} }}\n{}\n{}", e.decl("@1", "1"), sh.decl("@2", "2"), hu), "hu(1)", format!("{} `{}` / same name at the root: {} `{}`", e.kind, r1, sh.kind, r2)),
+                            "qualified-from-sibling-namespace" => (format!("namespace Na {{ {} }}\nnamespace Nu {{ {}\n{} }}", e.decl("@1", "1"), sh.decl("@2", "2"), hu), "Nu::hu(1)", format!("{} `{}` / same name next to the use: {} `{}`", e.kind, r1, sh.kind, r2)),
+                            "qualified-from-enclosing-namespace" => (format!("namespace Na {{ namespace Nb {{ {} }}\n{}\n{} }}", e.decl("@1", "1"), sh.decl("@2", "2"), hu), "Na::hu(1)", format!("{} `{}` / same name in the enclosing namespace: {} `{}`", e.kind, r1, sh.kind, r2)),
+                            _ => {
+                                // the other entity of the same name is a parameter / a local of the using function
+                                let hu = format!("int hu(int @2) {{ {} return {} + @2; }}\nint hw(int ha) {{ int @2 = ha; {} return {} + @2; }}", e.pre(r1, "1"), e.val(r1, "1"), e.pre(r1, "1"), e.val(r1, "1"));
+                                (format!("namespace Na {{ {} }}\n{}", e.decl("@1", "1"), hu), "hu(1) + hw(1)", format!("{} `{}` / same name is a parameter and a local", e.kind, r1))
+                            }
+                        };
+                        // partially qualified forms lie between the shortest and the absolute form
+                        let deep = matches!(*r1, "Na::Nb::@1") || matches!(*r2, "Na::@2" | "Nu::@2");
+                        v.push(ShadowCase { structure, label, src: prog(&decls, &format!("int r = {};", call)), deep, equal_names_in_quick: true });
                     }
                 }
             }
@@ -1667,7 +1944,7 @@ fn shadow_cases() -> Vec<ShadowCase> {
     }
     // the nearer declaration is a variable, a member, a method or a template parameter of the using function
     for structure in ["parameter", "local", "later-local", "outer-block-local", "for-local", "struct-member", "method", "namespace-function-parameter", "entry-local", "template-type-parameter"] {
-        for e in ENTS {
+        for e in ENTS.iter().chain(ENT_FORMS) {
             for r1 in ["::@1", "@1"] {
                 let (pre, val) = (e.pre(r1, "1"), e.val(r1, "1"));
                 let d = e.decl("@1", "1");
@@ -1683,7 +1960,7 @@ fn shadow_cases() -> Vec<ShadowCase> {
                     "entry-local" => (d.clone(), format!("int @2 = 1; {pre} int r = {val} + @2;")),
                     _ => (format!("{d}\ntemplate<typename @2> @2 hu(@2 ha) {{ {pre} return ha + (@2)({val}); }}"), "int r = hu<int>(1);".to_string()),
                 };
-                v.push(ShadowCase { structure, label: format!("{} `{}`", e.kind, r1), src: prog(&decls, &body) });
+                v.push(ShadowCase { structure, label: format!("{} `{}`", e.kind, r1), src: prog(&decls, &body), deep: false, equal_names_in_quick: false });
             }
         }
     }
@@ -1696,6 +1973,8 @@ fn shadow_class(structure: &str) -> &'static str {
         "namespace-member" | "outer-namespace-member" | "member-of-namespace-of-same-name" => "namespace-member",
         "struct-member" | "method" => "struct-member",
         "template-type-parameter" => "template-parameter",
+        "qualified-from-root" | "qualified-from-sibling-namespace" | "qualified-from-enclosing-namespace" => "qualified-reference",
+        "qualified-from-root-function-local" => "qualified-reference-next-to-variable",
         _ => "local-or-parameter",
     }
 }
@@ -1957,7 +2236,19 @@ pub fn run(ctx: &Ctx) -> i32 {
     let words = candidate_words();
     let mut tpls = role_templates();
     tpls.extend(type_position_templates().into_iter().filter(|t| !ctx.quick() || !t.deep));
+    tpls.extend(generator_name_templates().into_iter().filter(|t| !ctx.quick() || !t.deep));
     let dump = std::env::var("C15_DUMP").is_ok();
+    // C15_TIMING=1: CPU seconds and wall seconds per phase on stderr (diagnostics only, never part of a verdict)
+    let timing = std::env::var("C15_TIMING").is_ok();
+    let lap_state = std::cell::Cell::new((process_cpu_s(), std::time::Instant::now()));
+    let lap = |name: &str| {
+        if timing {
+            let (c0, w0) = lap_state.get();
+            let (c1, w1) = (process_cpu_s(), std::time::Instant::now());
+            eprintln!("TIMING {:<28} cpu {:7.1}s wall {:6.1}s", name, c1 - c0, (w1 - w0).as_secs_f64());
+            lap_state.set((c1, w1));
+        }
+    };
 
     // baselines of the role templates
     let mut machinery = Acc::default();
@@ -1982,6 +2273,7 @@ pub fn run(ctx: &Ctx) -> i32 {
         base_src.push(src);
     }
 
+    lap("template baselines");
     // ---- space d: ordinary names stay verbatim
     let radices = [cfgs.len() as u64, tpls.len() as u64, PLAIN_NAMES.len() as u64];
     let rd = run_par(ctx, product(&radices), 16, |idx, acc| {
@@ -1989,6 +2281,9 @@ pub fn run(ctx: &Ctx) -> i32 {
         decode(idx, &radices, &mut d);
         let (ci, ti, wi) = (d[0] as usize, d[1] as usize, d[2] as usize);
         let (cfg, t, w) = (cfgs[ci], &tpls[ti], PLAIN_NAMES[wi]);
+        if ctx.quick() && t.vocab && wi >= QUICK_PLAIN_NAMES_NEXT_TO_EXPORTER_NAMES {
+            return;
+        }
         let base = match &bases[ti][ci].out {
             Some(o) => o,
             None => return,
@@ -2003,6 +2298,7 @@ pub fn run(ctx: &Ctx) -> i32 {
         }
     });
     rep.absorb("d_verbatim", rd);
+    lap("d_verbatim");
 
     // ---- space c: generated-suffix collisions
     let ctxs = contexts3();
@@ -2041,6 +2337,7 @@ pub fn run(ctx: &Ctx) -> i32 {
             families.push(vec![w.clone(), format!("{}_0", w), format!("{}_1", w)]);
         }
     }
+    lap("c: baselines and families");
     let mut c_cases: Vec<(usize, usize, [usize; 3])> = Vec::new();
     for (ci, c) in ctxs.iter().enumerate() {
         for (fi, fam) in families.iter().enumerate() {
@@ -2083,47 +2380,62 @@ pub fn run(ctx: &Ctx) -> i32 {
         }
     });
     rep.absorb("c_suffix_collisions", rc);
+    lap("c_suffix_collisions");
 
     // ---- space e: shadowed references
-    let shadow = shadow_cases();
+    let shadow: Vec<ShadowCase> = shadow_cases().into_iter().filter(|c| !ctx.quick() || !c.deep).collect();
     let names_e: Vec<&str> = if ctx.quick() { vec!["x", "x_0"] } else { NAMES3.to_vec() };
     let ne = names_e.len() as u64;
-    let radices = [ne, ne, cfgs.len() as u64, shadow.len() as u64];
-    let re = run_par(ctx, product(&radices), 16, |idx, acc| {
+    // one index = one (case, target): its baseline is compiled once and serves every pair of names
+    let radices = [cfgs.len() as u64, shadow.len() as u64];
+    let re = run_par(ctx, product(&radices), 4, |idx, acc| {
         let mut d = Vec::new();
         decode(idx, &radices, &mut d);
-        let names = [names_e[d[1] as usize], names_e[d[0] as usize]];
-        let (cfg, sc) = (cfgs[d[2] as usize], &shadow[d[3] as usize]);
-        acc.evals += 1;
+        let (cfg, sc) = (cfgs[d[0] as usize], &shadow[d[1] as usize]);
         let base = subst2(&sc.src, BASE2);
-        let ren = subst2(&sc.src, names);
-        if let Err(why) = certify(&base, &ren) {
-            acc.count(&format!("e_not_a_renaming|{}", why));
-            return;
-        }
-        let b = baseline(&base, cfg, &mode);
-        let bo = match &b.out {
-            Some(o) => o,
-            None => {
-                acc.count(&format!("e_baseline_rejected|{}|{}", sc.structure, target_name(cfg)));
-                return;
-            }
+        let mut b: Option<BaseLine> = None;
+        let role = match shadow_class(sc.structure) {
+            "qualified-reference" => "qualified-reference-to-shared-leaf-name".to_string(),
+            "qualified-reference-next-to-variable" => "qualified-reference-next-to-local-or-parameter".to_string(),
+            c => format!("shadowed-by-{}", c),
         };
-        let role = format!("shadowed-by-{}", shadow_class(sc.structure));
         let note = format!("{}: {}", sc.structure, sc.label);
-        let map: Vec<(String, String)> = (0..2).map(|i| (BASE2[i].to_string(), names[i].to_string())).collect();
-        let p = Pair { space: "e", role: &role, base: &base, ren: &ren, map: &map, strict: Strict::Free, cfg, mode: &mode, origin: "plain", certified: true, note: &note };
-        match check_pair(&p, &bo.0, &bo.1, b.accepted, &lists, acc) {
-            Verdict::Outside => acc.count("e_outside"),
-            v => {
-                acc.count(&format!("e_checked|{}|{}", sc.structure, if names[0] == names[1] { "shared-name" } else { "distinct-names" }));
-                if v == Verdict::Held && names[0] == names[1] && idx % 211 == 0 {
-                    acc.sample(obj(vec![("space", "e".into()), ("structure", sc.structure.into()), ("case", sc.label.as_str().into()), ("names", format!("{},{}", names[0], names[1]).as_str().into()), ("target", cfg.name().into())]));
+        for n1 in &names_e {
+            for n0 in &names_e {
+                let names = [*n0, *n1];
+                if ctx.quick() && sc.equal_names_in_quick && n0 != n1 {
+                    continue;
+                }
+                acc.evals += 1;
+                let ren = subst2(&sc.src, names);
+                if let Err(why) = certify(&base, &ren) {
+                    acc.count(&format!("e_not_a_renaming|{}", why));
+                    continue;
+                }
+                let b = b.get_or_insert_with(|| baseline(&base, cfg, &mode));
+                let bo = match &b.out {
+                    Some(o) => o,
+                    None => {
+                        acc.count(&format!("e_baseline_rejected|{}|{}", sc.structure, target_name(cfg)));
+                        continue;
+                    }
+                };
+                let map: Vec<(String, String)> = (0..2).map(|i| (BASE2[i].to_string(), names[i].to_string())).collect();
+                let p = Pair { space: "e", role: &role, base: &base, ren: &ren, map: &map, strict: Strict::Free, cfg, mode: &mode, origin: "plain", certified: true, note: &note };
+                match check_pair(&p, &bo.0, &bo.1, b.accepted, &lists, acc) {
+                    Verdict::Outside => acc.count("e_outside"),
+                    v => {
+                        acc.count(&format!("e_checked|{}|{}", sc.structure, if names[0] == names[1] { "shared-name" } else { "distinct-names" }));
+                        if v == Verdict::Held && names[0] == names[1] && idx % 53 == 0 {
+                            acc.sample(obj(vec![("space", "e".into()), ("structure", sc.structure.into()), ("case", sc.label.as_str().into()), ("names", format!("{},{}", names[0], names[1]).as_str().into()), ("target", cfg.name().into())]));
+                        }
+                    }
                 }
             }
         }
     });
     rep.absorb("e_shadowed_references", re);
+    lap("e_shadowed_references");
 
     // ---- space a: α-renaming of the core
     let core = core_programs();
@@ -2177,6 +2489,7 @@ pub fn run(ctx: &Ctx) -> i32 {
         }
     });
     rep.absorb("a_alpha_core", ra);
+    lap("a_alpha_core");
 
     // ---- space b: every role × every candidate word × every target
     // quick tier: the large uniform families (type spellings, intrinsics, object types) are tried in the first template of
@@ -2215,6 +2528,7 @@ pub fn run(ctx: &Ctx) -> i32 {
         rep.cov(&format!("word_class_representatives::{}", t.role), Json::Arr(set.iter().map(|wi| words[*wi].as_str().into()).collect()));
         reps.insert(t.role, set);
     }
+    lap("b: class representatives");
     let mut b_cases: Vec<(usize, usize)> = Vec::new();
     for (wi, w) in words.iter().enumerate() {
         let cat = lists.hlsl.get(w).or(lists.msl.get(w)).copied().unwrap_or("");
@@ -2231,6 +2545,10 @@ pub fn run(ctx: &Ctx) -> i32 {
             if t.extra {
                 let representative = reps.get(t.role).map(|s| s.contains(&wi)).unwrap_or(false);
                 if !(first || representative || (!ctx.quick() && !family)) {
+                    continue;
+                }
+            } else if t.vocab {
+                if ctx.quick() || family {
                     continue;
                 }
             } else if ctx.quick() && family && !first {
@@ -2270,6 +2588,72 @@ pub fn run(ctx: &Ctx) -> i32 {
         }
     });
     rep.absorb("b_role_x_word_x_target", rb);
+    lap("b_role_x_word_x_target");
+
+    // ---- space f: every template × every identifier of its own emitted texts (any target) that does not derive from the
+    // user's name: the names the exporter introduced into this very program (implicit parameters, argument buffers, stage
+    // structs, helper functions and their parameters) and the built-in names it wrote out. Pairs already tried in b are left out.
+    let tried: BTreeSet<(usize, usize)> = b_cases.iter().copied().collect();
+    let word_index: BTreeMap<&str, usize> = words.iter().enumerate().map(|(i, w)| (w.as_str(), i)).collect();
+    let key = [(BASE.to_string(), String::new())];
+    let mut f_cases: Vec<(usize, String)> = Vec::new();
+    let mut f_vocabulary: BTreeSet<String> = BTreeSet::new();
+    for (ti, row) in bases.iter().enumerate() {
+        // names the program itself declares are not fresh for it: renaming onto one of them is not injective
+        let own: BTreeSet<String> = declared_names(&base_src[ti]).unwrap_or_default().into_iter().collect();
+        let mut vocab: BTreeSet<&str> = BTreeSet::new();
+        for b in row {
+            if let Some((o, _)) = &b.out {
+                for t in tokens(&o.text) {
+                    if is_ident_token(t) && find_key(t, &key).is_none() && !own.contains(t) {
+                        vocab.insert(t);
+                    }
+                }
+            }
+        }
+        for w in vocab {
+            // names the exporter derives from another name of the program (cbuffer X -> struct XType, X -> X_0): both get
+            // suffixes and the property does not say which of them keeps the plain name
+            let derived = own.iter().any(|n| match w.strip_prefix(n.as_str()) {
+                Some("Type") => true,
+                Some(rest) => rest.len() > 1 && rest.starts_with('_') && rest[1..].bytes().all(|c| c.is_ascii_digit()),
+                None => false,
+            });
+            if derived {
+                continue;
+            }
+            if word_index.get(w).map(|wi| tried.contains(&(ti, *wi))).unwrap_or(false) {
+                continue;
+            }
+            f_vocabulary.insert(w.to_string());
+            f_cases.push((ti, w.to_string()));
+        }
+    }
+    let rf = run_par(ctx, f_cases.len() as u64 * nb, 64, |idx, acc| {
+        let (ti, w) = &f_cases[(idx / nb) as usize];
+        let ci = (idx % nb) as usize;
+        let (cfg, t) = (cfgs[ci], &tpls[*ti]);
+        let base = match &bases[*ti][ci].out {
+            Some(o) => o,
+            None => return,
+        };
+        acc.evals += 1;
+        let ren = t.src.replace('@', w);
+        let map = [(BASE.to_string(), w.clone())];
+        let p = Pair { space: "f", role: t.role, base: &base_src[*ti], ren: &ren, map: &map, strict: Strict::Free, cfg, mode: &mode, origin: origin_of(w), certified: false, note: &t.variant };
+        match check_pair(&p, &base.0, &base.1, bases[*ti][ci].accepted, &lists, acc) {
+            Verdict::Outside => acc.count("f_word_not_accepted_in_role"),
+            v => {
+                acc.count(&format!("f_accepted|{}", t.role));
+                if v == Verdict::Held && idx % 499 == 0 {
+                    acc.sample(obj(vec![("space", "f".into()), ("role", t.role.into()), ("template", t.variant.as_str().into()), ("word", w.as_str().into()), ("target", cfg.name().into())]));
+                }
+            }
+        }
+    });
+    rep.absorb("f_role_x_emitted_identifier_x_target", rf);
+    lap("f_role_x_emitted_identifier_x_target");
+    rep.cov("emitted_identifiers_f", Json::Int(f_vocabulary.len() as i64));
 
 
     rep.acc.merge(machinery);
@@ -2298,6 +2682,8 @@ pub fn run(ctx: &Ctx) -> i32 {
     rep.cov("name_families_c", Json::Int(families.len() as i64));
     rep.cov("core_programs", Json::Int(core.len() as i64));
     rep.cov("shadow_cases_e", Json::Int(shadow.len() as i64));
+    rep.cov("templates_next_to_exporter_names", Json::Int(tpls.iter().filter(|t| t.variant.starts_with("implicit/")).count() as i64));
+    rep.cov("templates_constant_positions", Json::Int(tpls.iter().filter(|t| t.variant.starts_with("const/") || t.variant.contains("/const-")).count() as i64));
     rep.cov("name_pairs_e", Json::Int((ne * ne) as i64));
     rep.cov("targets", Json::Arr(cfgs.iter().map(|c| c.name().into()).collect()));
     rep.assumptions = vec![
@@ -2309,6 +2695,10 @@ pub fn run(ctx: &Ctx) -> i32 {
         "space e uses the plain names x, x_0, … only (never a word built in to rssl); whether the renamed source is a renaming of the baseline is decided by our reference scoping model on the parsed sources (ordinary lexical scoping, `::` anchors at the root, a qualified name is looked up in the nearest scope that declares its first segment): cases where that model binds a use differently (e.g. `x` written relative while a nearer `x` exists, or `Na::x` where the nearest `Na` lacks `x` - rssl would continue outwards there, C++ would not) are left out and counted as e_not_a_renaming".into(),
         "a `::` that starts a path is ignored when emitted texts are compared, so an exporter may anchor a path exactly when the names in scope require it; a use bound to the placeholder type parameter of an emitted instantiation and a use bound to the struct that placeholder is named after count as the same entity".into(),
         "type-use positions: template structs are left out (the exporters do not implement them: todo!() panic, C08 territory); enums as buffer elements are rejected by rssl; the quick tier tries, in the type-position templates, the alphabetically first 2 accepted words of every class (category in our HLSL list, category in our MSL list, origin) instead of every word, the thorough tier every word outside the large uniform families (type spellings, intrinsics, object types) plus 4 per class".into(),
+        "space f tries, per template, the identifiers of that template's own emitted texts (both targets) except the names the program declares itself and names derived from those (X -> XType, X_N); templates of the exporter-name and constant-position dimensions get, in the quick tier, the plain names (d) and those identifiers (f) only, in the thorough tier also every candidate word outside the large uniform families (b)".into(),
+        "a use counts as unbound only if the use of the BASELINE output (distinctive names) that is written with a user-derived first segment resolves to no declaration of the emitted module under ordinary lexical scoping; member names after `.` and attribute names are not uses".into(),
+        "the re-acceptance of the emitted HLSL by the rssl front end is not demanded when the chosen name is one of the 15 identifiers rssl's parser reads as a type modifier where a type starts (vertices, primitives, indices, payload, precise, sample, …): a namespace may be called `indices`, and the emitted `indices::T` is then read back as modifier + `::T`; that is an inconsistency of rssl's input grammar, not of the emitted names".into(),
+        "constant-folded positions: an enum-typed template value argument is left out (rssl rejects it); struct kinds are rejected by rssl in these positions and counted as baseline_rejected".into(),
         "a user name equal to a name the Metal generator derives from ANOTHER user name of the same program (cbuffer X → struct XType) is not tried in the type-position templates (both get suffixes; the property does not say which of them keeps the plain name)".into(),
     ];
     finish(ctx, rep)
